@@ -51,6 +51,10 @@ type c32Script struct {
 	Dups    int    // threads registering a further connection right away
 	Redials int    // threads registering a further connection once connection 0's transport was closed
 	Open    bool   // every connection also carries a STREAM_OPEN P->M->Q (a relay entry owned by that connection)
+	// Direct: the frames of a connection are handed to the agent by the thread that registered it, once
+	// it was accepted (as in part A), instead of travelling wire -> readLoop -> frameCh -> drainFrames ->
+	// OnFrame; the connection then has no frame worker. Fewer threads, so a deeper bound is affordable.
+	Direct bool
 }
 
 var c32Scripts = []c32Script{
@@ -61,10 +65,11 @@ var c32Scripts = []c32Script{
 	{Name: "flap-clk", Pre: true, Fail: "clk", Redials: 1, Open: true},
 	{Name: "flap-rd+wr", Pre: true, Fail: "rd+wr", Redials: 1, Open: true},
 	{Name: "flap-wr-2", Pre: true, Fail: "wr", Redials: 2, Open: true},
-	// the same with one frame (P's route advertisement) per connection: fewer scheduling points, deeper bound
-	{Name: "flap-wr-min", Pre: true, Fail: "wr", Redials: 1},
-	{Name: "flap-rd-min", Pre: true, Fail: "rd", Redials: 1},
-	{Name: "flap-clk-min", Pre: true, Fail: "clk", Redials: 1},
+	// the same with the frames delivered directly by the registering thread
+	{Name: "flap-wr-min", Pre: true, Fail: "wr", Redials: 1, Direct: true, Open: true},
+	{Name: "flap-rd-min", Pre: true, Fail: "rd", Redials: 1, Direct: true, Open: true},
+	{Name: "flap-clk-min", Pre: true, Fail: "clk", Redials: 1, Direct: true, Open: true},
+	{Name: "flap-rd+wr-min", Pre: true, Fail: "rd+wr", Redials: 1, Direct: true, Open: true},
 }
 
 func c32ScriptByName(n string) (c32Script, bool) {
@@ -141,6 +146,7 @@ func c32SchedRunRep(r *vmc.Result, sc c32Script, timerCost int, c *vmc.Chooser, 
 	ob.accepted = make([]bool, nconn)
 	returned := make([]bool, nconn)
 	reports := make([]int, nconn)
+	closedAt := c32ClosedAt(nconn)
 	finished := false
 	idx := func(c *peer.Connection) int {
 		for i, x := range conns {
@@ -154,6 +160,7 @@ func c32SchedRunRep(r *vmc.Result, sc c32Script, timerCost int, c *vmc.Chooser, 
 		func(c *peer.Connection, next func()) {
 			if k := idx(c); k >= 0 {
 				ob.accepted[k] = true
+				c32NoteAccepted(closedAt, conns, k)
 			}
 			ob.connCalls++
 			next()
@@ -170,7 +177,7 @@ func c32SchedRunRep(r *vmc.Result, sc c32Script, timerCost int, c *vmc.Chooser, 
 			if err != nil && err != peer.ErrC32Closed && err.Error() != "read: connection reset" {
 				kind = "ka"
 			}
-			c32TeardownPeek(r, nt, own, conns, k, kind, reports[k], rep, next, func() *peer.Connection { return mgr.C32Peek(pid) })
+			c32TeardownPeek(r, nt, own, conns, k, kind, reports[k], closedAt, rep, next, func() *peer.Connection { return mgr.C32Peek(pid) })
 		},
 		func(c *peer.Connection, f *protocol.Frame, next func()) {
 			k := idx(c)
@@ -184,18 +191,38 @@ func c32SchedRunRep(r *vmc.Result, sc c32Script, timerCost int, c *vmc.Chooser, 
 			ob.delivered[k]++
 		},
 	)
+	direct := func(k int) {
+		for _, b := range pre[k] {
+			f, err := protocol.Decode(b)
+			if err != nil {
+				r.HarnessError("C32 part B: undecodable frame")
+				return
+			}
+			before := c32Snapshot(nt)
+			m.processFrame(pid, f)
+			own.learn(before, c32Snapshot(nt), k)
+			ob.delivered[k]++
+		}
+	}
 
 	register := func(k int, prefeed bool) {
 		w := peer.NewC32Wire(nil)
-		if prefeed {
+		if prefeed && !sc.Direct {
 			for _, b := range pre[k] {
 				w.Feed(b)
 			}
 		}
 		wires[k] = w
-		conns[k] = mgr.C32NewConnectionLite(pid, k%2 == 0, w, 0)
+		seq := 1
+		if sc.Direct {
+			seq = 0
+		}
+		conns[k] = mgr.C32NewConnectionLite(pid, k%2 == 0, w, seq, 0)
 		mgr.VerifRegisterReal(conns[k])
 		returned[k] = true
+		if sc.Direct && prefeed && ob.accepted[k] {
+			direct(k)
+		}
 	}
 	interval := 5 * time.Minute
 
@@ -207,7 +234,13 @@ func c32SchedRunRep(r *vmc.Result, sc c32Script, timerCost int, c *vmc.Chooser, 
 			next = 1
 			// let the new loops park (an idle scheduler fires this 1 ns timer for free)
 			vtime.Sleep(time.Nanosecond)
+			if sc.Direct {
+				direct(0)
+			}
 			for i, b := range pre[0] {
+				if sc.Direct {
+					break
+				}
 				wires[0].Feed(b)
 				want := i + 1
 				sched.Block("await-pre", func() bool { return ob.delivered[0] >= want })
@@ -215,9 +248,11 @@ func c32SchedRunRep(r *vmc.Result, sc c32Script, timerCost int, c *vmc.Chooser, 
 			// a relay Q->M->P whose downstream id is allocated on connection 0
 			before := c32Snapshot(nt)
 			m.processFrame(qid, c32OpenFrame(100, []identity.AgentID{pid, nsID(7)}))
+			m.processFrame(qid, c32UDPOpenFrame(300, []identity.AgentID{pid, nsID(7)}))
+			m.processFrame(qid, c32ICMPOpenFrame(400, []identity.AgentID{pid, nsID(7)}))
 			own.learn(before, c32Snapshot(nt), 0)
 			st := c32Snapshot(nt)
-			if wantRelays := 1 + map[bool]int{true: 1}[sc.Open]; len(st.routes) < 3 || len(st.relays) != wantRelays {
+			if wantRelays := 3 + map[bool]int{true: 1}[sc.Open]; len(st.routes) < 3 || len(st.relays) != wantRelays {
 				r.HarnessError("C32 part B: script %s did not build the expected state on connection 0: %v %v", sc.Name, c32Keys(st.routes), c32Keys(st.relays))
 			}
 			switch sc.Fail {
@@ -317,9 +352,15 @@ type c32Plan struct {
 
 func c32Plans(r *vmc.Result) []c32Plan {
 	if r.Thorough() {
-		return []c32Plan{{"dial+accept", 2, 2}, {"dup-on-live", 2, 2}, {"flap-wr", 2, 2}, {"flap-rd", 2, 2}, {"flap-clk", 2, 2}, {"flap-rd+wr", 2, 1}, {"flap-wr-2", 1, 2}}
+		return []c32Plan{
+			{"dup-on-live", 2, 2}, {"flap-wr-min", 2, 2}, {"flap-rd-min", 2, 2}, {"flap-clk-min", 2, 2}, {"flap-rd+wr-min", 2, 1},
+			{"dial+accept", 1, 2}, {"flap-wr", 1, 2}, {"flap-rd", 1, 2}, {"flap-clk", 1, 2}, {"flap-rd+wr", 0, 1}, {"flap-wr-2", 0, 2},
+		}
 	}
-	return []c32Plan{{"dial+accept", 1, 2}, {"dup-on-live", 1, 2}, {"flap-wr", 1, 2}, {"flap-rd", 1, 2}, {"flap-clk", 1, 2}}
+	return []c32Plan{
+		{"dup-on-live", 1, 2}, {"flap-wr-min", 1, 2}, {"flap-rd-min", 1, 2}, {"flap-clk-min", 1, 2}, {"flap-rd+wr-min", 1, 1},
+		{"dial+accept", 1, 2}, {"flap-wr", 0, 2}, {"flap-rd", 0, 2}, {"flap-clk", 0, 2},
+	}
 }
 
 func c32SchedPart(r *vmc.Result) {
